@@ -13,7 +13,6 @@ kind  coverage label: valid | boundary | outside | malformed | nonbytes | wrongk
 """
 from __future__ import annotations
 
-import copy
 import datetime as _dt
 import pathlib
 
@@ -33,10 +32,7 @@ class Cand:
 
     def fresh(self):
         """The value to hand to the library (plain containers are copied so that no two operations share one)."""
-        v = self.value
-        if type(v) in (list, dict, tuple, set):
-            return copy.deepcopy(v)
-        return v
+        return _fresh(self.value)
 
     def short(self):
         try:
@@ -44,6 +40,16 @@ class Cand:
         except Exception as e:  # noqa: BLE001
             s = "<repr %s>" % type(e).__name__
         return s if len(s) <= 70 else s[:70] + "..."
+
+
+def _fresh(v):
+    """copy plain containers (recursively); library objects and scalars are handed over as they are"""
+    t = type(v)
+    if t in (list, tuple, set):
+        return t(_fresh(x) for x in v)
+    if t is dict:
+        return {k: _fresh(x) for k, x in v.items()}
+    return v
 
 
 def A(v, kind="valid", conv=None):
